@@ -14,6 +14,15 @@
 (*            confirmable requests): semaphore.Acquire(ctx) - same remark   *)
 (*   write    session.WriteMessage: refused on a closed socket or under a   *)
 (*            finished context; the deferred clean-up gives both slots back *)
+(*   wlock | wpark   (stream transports) net.Conn.WriteWithContext: writers  *)
+(*            are serialized by a lock; the holder hands the frame to the   *)
+(*            socket, and parks there when the peer has stopped reading and *)
+(*            its buffers are full ("a half-open stream").  LockWakes /     *)
+(*            WriteWakes say what ends the two waits: the code (after the   *)
+(*            repair of WriteWithContext) - the writer's context and the    *)
+(*            closing of the socket; the pinned tree - the socket only.     *)
+(*            A ping is written under the CONNECTION's context (AsyncPing   *)
+(*            has no other): finding D22.                                   *)
 (*   sent | acked | midbw   the waits for the peer: select over the awaited *)
 (*            event and the contexts listed in Sel[kind][point] (read from  *)
 (*            udp/client/conn.go: doInternal, waitForAcknowledge;           *)
@@ -51,6 +60,9 @@ CONSTANTS Sel,          \* Sel[kind][pt] \subseteq {"ctx", "conn"} for pt \in {"
           HasReader,    \* the connection has a reader loop of its own
           ClosesSocket, \* Close() closes the socket (client connections, stream connections)
           PopAtomic,    \* popOnClose takes and clears the list in one critical section (the code)
+          WriteWakes,   \* what wakes a write parked on a peer that does not read: subset of {"ctx", "sock"}
+          LockWakes,    \* what ends the wait for the write lock besides its release: subset of {"ctx"}
+          CloseTakesWriteLock,  \* closing the socket waits for the write lock (the code: it does not)
           ParkWakes     \* what the reader, parked handing a message to a full receive queue, also waits for:
                         \* "conn" = the connection context (the code: Process / pushToReceivedMessageQueue), "done" = the done signal
 
@@ -63,6 +75,7 @@ Waits(k)   == Datagram \/ k # "write"            \* a one-way write on a stream 
 \* the points at which a driver can hold an operation, per transport (used to generate the interruption tuples)
 Path(k, dg) == <<"before">> \o (IF UsesLim(k) THEN <<"queued">> ELSE <<>>)
                \o (IF dg /\ k \in {"do", "bwdo", "observe", "obscancel", "write"} THEN <<"nstart">> ELSE <<>>)
+               \o (IF ~dg /\ k # "discover" THEN <<"wlock", "wpark">> ELSE <<>>)
                \o (IF dg \/ k # "write" THEN <<"sent">> ELSE <<>>)
                \o (IF dg /\ k = "do" THEN <<"acked">> ELSE <<>>) \o (IF k = "bwdo" THEN <<"midbw">> ELSE <<>>)
 \* what the code's selects list, after the repair of Ping (net/client/client.go) - every wait for the peer lists both
@@ -78,15 +91,16 @@ VARIABLES kind, pc, cctx, ret,         \* the calls
           connCtx, sock, sockCloses,   \* connection context, socket, executions of the real socket close
           list, taken, ran, done, doneCompletions,
           ppc,
+          wlock, stalled,              \* stream: holder of the write lock; the peer has stopped reading and its buffers are full
           rpark                        \* the reader is parked in Process: select{queue <- req, <wake>} with the queue full
-cvars == <<kind, pc, cctx, ret, lim, limq, ns, nsq>>
-xvars == <<closeReq, eof>>
+cvars == <<kind, pc, cctx, ret, lim, limq, ns, nsq, wlock>>
+xvars == <<closeReq, eof, stalled>>
 pvars == <<connCtx, sock, sockCloses, list, taken, ran, done, doneCompletions, ppc, rpark>>
 vars == <<cvars, xvars, pvars>>
 
 Init == /\ kind \in {f \in [Calls -> Ops] : \A c \in Calls : c # "op" => f[c] = "do"}
         /\ pc = [c \in Calls |-> "idle"] /\ cctx = [c \in Calls |-> FALSE] /\ ret = [c \in Calls |-> "none"]
-        /\ lim = "free" /\ limq = <<>> /\ ns = "free" /\ nsq = <<>>
+        /\ lim = "free" /\ limq = <<>> /\ ns = "free" /\ nsq = <<>> /\ wlock = "free" /\ stalled = FALSE
         /\ closeReq = FALSE /\ eof = FALSE /\ connCtx = FALSE /\ sock = "open" /\ sockCloses = 0
         /\ list = Cbs /\ taken = [p \in Procs |-> {}] /\ ran = [c \in Cbs |-> 0] /\ done = FALSE /\ doneCompletions = 0
         /\ ppc = [p \in Procs |-> "idle"] /\ rpark = FALSE
@@ -100,20 +114,23 @@ Leave(c, r, relNS) ==
   /\ pc' = [pc EXCEPT ![c] = "done"] /\ ret' = [ret EXCEPT ![c] = r]
   /\ lim' = RelHolder(lim, limq, c) /\ limq' = RelQueue(lim, limq, c)
   /\ IF relNS THEN ns' = RelHolder(ns, nsq, c) /\ nsq' = RelQueue(ns, nsq, c) ELSE UNCHANGED <<ns, nsq>>
+  /\ wlock' = IF wlock = c THEN "free" ELSE wlock
   /\ UNCHANGED <<kind, cctx>>
 At(c, p) == pc' = [pc EXCEPT ![c] = p]
 
 (* ------------------------------- environment ----------------------------- *)
-Invoke(c) == pc[c] = "idle" /\ At(c, "before") /\ UNCHANGED <<kind, cctx, ret, lim, limq, ns, nsq>> /\ UNCHANGED <<xvars, pvars>>
+Invoke(c) == pc[c] = "idle" /\ At(c, "before") /\ UNCHANGED <<kind, cctx, ret, lim, limq, ns, nsq, wlock>> /\ UNCHANGED <<xvars, pvars>>
 CtxDone(c) == ~cctx[c] /\ pc[c] # "done" /\ cctx' = [cctx EXCEPT ![c] = TRUE]
-              /\ UNCHANGED <<kind, pc, ret, lim, limq, ns, nsq>> /\ UNCHANGED <<xvars, pvars>>
-LocalClose == ~closeReq /\ closeReq' = TRUE /\ UNCHANGED <<eof, cvars, pvars>>
-PeerClose == HasReader /\ ~Datagram /\ ~eof /\ eof' = TRUE /\ UNCHANGED <<closeReq, cvars, pvars>>
+              /\ UNCHANGED <<kind, pc, ret, lim, limq, ns, nsq, wlock>> /\ UNCHANGED <<xvars, pvars>>
+LocalClose == ~closeReq /\ closeReq' = TRUE /\ UNCHANGED <<eof, stalled, cvars, pvars>>
+PeerClose == HasReader /\ ~Datagram /\ ~eof /\ eof' = TRUE /\ UNCHANGED <<closeReq, stalled, cvars, pvars>>
+\* the stream peer stops reading (its buffers are full from now on)
+Stall == ~Datagram /\ ~stalled /\ stalled' = TRUE /\ UNCHANGED <<closeReq, eof, cvars, pvars>>
 \* the peer gets the call one wait further, or answers it - never obliged to
 PeerAck(c) == Datagram /\ pc[c] = "sent" /\ kind[c] = "do" /\ At(c, "acked")
-              /\ UNCHANGED <<kind, cctx, ret, lim, limq, ns, nsq>> /\ UNCHANGED <<xvars, pvars>>
+              /\ UNCHANGED <<kind, cctx, ret, lim, limq, ns, nsq, wlock>> /\ UNCHANGED <<xvars, pvars>>
 PeerContinue(c) == pc[c] = "sent" /\ kind[c] = "bwdo" /\ At(c, "midbw")
-              /\ UNCHANGED <<kind, cctx, ret, lim, limq, ns, nsq>> /\ UNCHANGED <<xvars, pvars>>
+              /\ UNCHANGED <<kind, cctx, ret, lim, limq, ns, nsq, wlock>> /\ UNCHANGED <<xvars, pvars>>
 PeerAnswer(c) == pc[c] \in WaitPts /\ kind[c] # "discover" /\ Leave(c, "ok", TRUE) /\ UNCHANGED <<xvars, pvars>>
 \* the handler is busy and the peer keeps sending: the receive queue fills up and the reader parks handing the next message over
 \* (before any interruption: afterwards it makes no difference to what is claimed)
@@ -121,7 +138,7 @@ Flood == HasReader /\ ~rpark /\ ppc["reader"] = "idle" /\ ~closeReq /\ ~eof /\ ~
          /\ UNCHANGED <<cvars, xvars, connCtx, sock, sockCloses, list, taken, ran, done, doneCompletions, ppc>>
 Env == \/ Flood
        \/ \E c \in Calls : Invoke(c) \/ CtxDone(c) \/ PeerAck(c) \/ PeerContinue(c) \/ PeerAnswer(c)
-       \/ LocalClose \/ PeerClose
+       \/ LocalClose \/ PeerClose \/ Stall
 
 (* ---------------------------- the calls' own steps ------------------------ *)
 Enter(c) == /\ pc[c] = "before"
@@ -129,9 +146,9 @@ Enter(c) == /\ pc[c] = "before"
                THEN IF lim = "free" THEN lim' = c /\ At(c, "haveLim") /\ UNCHANGED limq
                     ELSE limq' = Append(limq, c) /\ At(c, "queued") /\ UNCHANGED lim
                ELSE At(c, "haveLim") /\ UNCHANGED <<lim, limq>>
-            /\ UNCHANGED <<kind, cctx, ret, ns, nsq>>
+            /\ UNCHANGED <<kind, cctx, ret, ns, nsq, wlock>>
 \* select{granted, ctx} of acquireEndpoint - both arms may be ready
-QueuedGranted(c) == pc[c] = "queued" /\ lim = c /\ At(c, "haveLim") /\ UNCHANGED <<kind, cctx, ret, lim, limq, ns, nsq>>
+QueuedGranted(c) == pc[c] = "queued" /\ lim = c /\ At(c, "haveLim") /\ UNCHANGED <<kind, cctx, ret, lim, limq, ns, nsq, wlock>>
 QueuedCtx(c) == pc[c] = "queued" /\ cctx[c] /\ Leave(c, "err", TRUE)
 \* limit.Acquire / acquireOutstandingInteraction refuse a finished context at once
 TakeNS(c) == /\ pc[c] = "haveLim"
@@ -140,21 +157,35 @@ TakeNS(c) == /\ pc[c] = "haveLim"
                         THEN IF ns = "free" THEN ns' = c /\ At(c, "write") /\ UNCHANGED nsq
                              ELSE nsq' = Append(nsq, c) /\ At(c, "nstart") /\ UNCHANGED ns
                         ELSE At(c, "write") /\ UNCHANGED <<ns, nsq>>
-                     /\ UNCHANGED <<kind, cctx, ret, lim, limq>>
-NSGranted(c) == pc[c] = "nstart" /\ ns = c /\ At(c, "write") /\ UNCHANGED <<kind, cctx, ret, lim, limq, ns, nsq>>
+                     /\ UNCHANGED <<kind, cctx, ret, lim, limq, wlock>>
+NSGranted(c) == pc[c] = "nstart" /\ ns = c /\ At(c, "write") /\ UNCHANGED <<kind, cctx, ret, lim, limq, ns, nsq, wlock>>
 NSCtx(c) == pc[c] = "nstart" /\ cctx[c] /\ Leave(c, "err", TRUE)
 \* the write: refused on a closed socket, under a finished context (a ping is written under the connection's context)
 WriteRefused(c) == sock = "closed" \/ cctx[c] \/ (connCtx /\ kind[c] = "ping")
+\* (a datagram write never parks; a stream write first takes the connection's write lock)
+WCtx(c) == IF kind[c] = "ping" THEN connCtx ELSE cctx[c]       \* the context the frame is written under
+Wrote(c) == IF ~Waits(kind[c]) THEN Leave(c, "ok", TRUE)
+            ELSE At(c, "sent") /\ wlock' = (IF wlock = c THEN "free" ELSE wlock) /\ UNCHANGED <<kind, cctx, ret, lim, limq, ns, nsq>>
 Write(c) == /\ pc[c] = "write"
             /\ IF WriteRefused(c) THEN Leave(c, "err", ReleaseOnWriteFail)
-               ELSE IF ~Waits(kind[c]) THEN Leave(c, "ok", TRUE)
-               ELSE At(c, "sent") /\ UNCHANGED <<kind, cctx, ret, lim, limq, ns, nsq>>
+               ELSE IF Datagram THEN Wrote(c)
+               ELSE IF wlock = "free" THEN wlock' = c /\ At(c, "wpark") /\ UNCHANGED <<kind, cctx, ret, lim, limq, ns, nsq>>
+               ELSE At(c, "wlock") /\ UNCHANGED <<kind, cctx, ret, lim, limq, ns, nsq, wlock>>
+LockGranted(c) == pc[c] = "wlock" /\ wlock = "free" /\ wlock' = c /\ At(c, "wpark") /\ UNCHANGED <<kind, cctx, ret, lim, limq, ns, nsq>>
+LockCtx(c) == pc[c] = "wlock" /\ WCtx(c) /\ "ctx" \in LockWakes /\ Leave(c, "err", ReleaseOnWriteFail)
+\* holding the lock: the socket takes the frame unless the peer has stalled; a closed socket or (WriteWakes) the context fails the write
+WriteDone(c) == pc[c] = "wpark" /\ sock = "open" /\ ~stalled /\ Wrote(c)
+WriteFails(c) == /\ pc[c] = "wpark"
+                 /\ \/ sock = "closed" /\ (stalled => "sock" \in WriteWakes)
+                    \/ WCtx(c) /\ (stalled => "ctx" \in WriteWakes)
+                 /\ Leave(c, "err", ReleaseOnWriteFail)
 \* the select of a wait for the peer sees a done context it listens to
 Woken(c) == /\ pc[c] \in WaitPts
             /\ \/ cctx[c] /\ "ctx" \in Sel[kind[c]][pc[c]]
                \/ connCtx /\ "conn" \in Sel[kind[c]][pc[c]]
             /\ Leave(c, IF kind[c] = "discover" /\ cctx[c] THEN "ok" ELSE "err", TRUE)
-CallStep(c) == (Enter(c) \/ QueuedGranted(c) \/ QueuedCtx(c) \/ TakeNS(c) \/ NSGranted(c) \/ NSCtx(c) \/ Write(c) \/ Woken(c))
+CallStep(c) == (Enter(c) \/ QueuedGranted(c) \/ QueuedCtx(c) \/ TakeNS(c) \/ NSGranted(c) \/ NSCtx(c) \/ Write(c) \/ LockGranted(c) \/ LockCtx(c)
+                \/ WriteDone(c) \/ WriteFails(c) \/ Woken(c))
                /\ UNCHANGED <<xvars, pvars>>
 
 (* ------------------------------ the close protocol ------------------------ *)
@@ -168,6 +199,7 @@ StartClose(p) == /\ ppc[p] = "idle"
                  /\ connCtx' = TRUE /\ Go(p, "cancelled")
                  /\ UNCHANGED <<sock, sockCloses, list, taken, ran, done, doneCompletions, rpark>>
 CloseSock(p) == /\ ppc[p] = "cancelled"
+                /\ (CloseTakesWriteLock /\ ClosesSocket /\ sock = "open") => wlock = "free"
                 /\ IF ClosesSocket /\ sock = "open" THEN sock' = "closed" /\ sockCloses' = sockCloses + 1 ELSE UNCHANGED <<sock, sockCloses>>
                 /\ Go(p, IF p \in Closers THEN "end" ELSE "closed")
                 /\ UNCHANGED <<connCtx, list, taken, ran, done, doneCompletions, rpark>>
@@ -196,6 +228,10 @@ Spec == Init /\ [][Next]_vars /\ (\A c \in Calls : WF_vars(CallStep(c))) /\ (\A 
 PeerClosed == eof /\ ~rpark
 Interrupted(c) == pc[c] # "idle" /\ (cctx[c] \/ closeReq \/ PeerClosed)
 Ends == \A c \in Calls : Interrupted(c) ~> (pc[c] = "done")
+\* finding D22: Ping(ctx) hands its frame over under the connection's context (AsyncPing has no other): a ping whose frame is
+\* waiting for, or parked in, a write to a stalled peer outlives its caller's context - until the connection is closed
+D22(c) == kind[c] = "ping" /\ pc[c] \in {"wlock", "wpark"} /\ stalled
+EndsButD22 == \A c \in Calls : Interrupted(c) ~> (pc[c] = "done" \/ D22(c))
 NoFalseError == \A c \in Calls : (ret[c] = "err") => (cctx[c] \/ closeReq \/ eof)
 \* slots are owned by at most one call and never by one that has returned
 SlotsSane == /\ lim \in Calls => pc[lim] \notin {"idle", "done"}
